@@ -374,3 +374,364 @@ var ruleTabK11 = &Rule{
 		return obs
 	},
 }
+
+// LOC/identity-has-file: two locations are the same declaration only if they lie in the same file.
+
+var ruleLocIdentity = &Rule{
+	Name:    "LOC/identity-has-file",
+	NeedSSA: true,
+	Text: "every call of lexer.CompareTwoLoc (are these two locations the same place?) is executed only on the equal-edge of an unconditional string comparison " +
+		"(the file of the one location equals the file of the other): a location is a place inside ONE file, and a same-named local declared at the same line and column " +
+		"of another file (`local M = {}` at the top of two modules) is otherwise taken for the variable being searched or renamed. All three call sites follow this idiom",
+	Run: func(c *Ctx) []Ob {
+		var obs []Ob
+		n := 0
+		for _, f := range c.ModFns() {
+			cnt := 0
+			for _, b := range f.Blocks {
+				for _, ins := range b.Instrs {
+					call, ok := ins.(*ssa.Call)
+					if !ok {
+						continue
+					}
+					g := call.Call.StaticCallee()
+					if g == nil || g.Name() != "CompareTwoLoc" || g.Pkg == nil || g.Pkg.Pkg.Path() != lexerPkg {
+						continue
+					}
+					n++
+					cnt++
+					key := fmt.Sprintf("LOC/identity:%s#%d", fnKey(f), cnt)
+					guarded := false
+					for d := b; d != nil && !guarded; d = d.Idom() {
+						id := d.Idom()
+						if id == nil {
+							break
+						}
+						iff, ok := id.Instrs[len(id.Instrs)-1].(*ssa.If)
+						if !ok {
+							continue
+						}
+						bo, ok := iff.Cond.(*ssa.BinOp)
+						if !ok || (bo.Op != token.EQL && bo.Op != token.NEQ) || !isStringType(bo.X.Type()) {
+							continue
+						}
+						if !fileNameValue(bo.X) && !fileNameValue(bo.Y) {
+							continue // a comparison of names, not of files
+						}
+						eq := id.Succs[0]
+						if bo.Op == token.NEQ {
+							eq = id.Succs[1]
+						}
+						if eq == d && len(eq.Preds) == 1 {
+							guarded = true
+						}
+					}
+					if guarded {
+						obs = append(obs, Ob{Key: key, Site: c.Pos(call.Pos()), Verdict: OK, Note: "after a file-equality test"})
+					} else {
+						obs = append(obs, Ob{Key: key, Site: c.Pos(call.Pos()), Verdict: VIOLATION,
+							Note: "two locations are compared for identity on a path that has not established that they belong to the same file: a declaration at the same line and column of another file matches"})
+					}
+				}
+			}
+		}
+		obs = append(obs, floor("LOC/identity-has-file", "calls of CompareTwoLoc", n, 3))
+		return obs
+	},
+}
+
+// fileNameValue: v is read from a field or is a parameter whose name says it is a file (FileName, fileName,
+// StrFile, luaInFile ...)
+func fileNameValue(v ssa.Value) bool {
+	isFile := func(name string) bool {
+		l := []byte(name)
+		for i := range l {
+			if l[i] >= 'A' && l[i] <= 'Z' {
+				l[i] += 'a' - 'A'
+			}
+		}
+		s := string(l)
+		for i := 0; i+4 <= len(s); i++ {
+			if s[i:i+4] == "file" {
+				return true
+			}
+		}
+		return false
+	}
+	switch x := v.(type) {
+	case *ssa.Parameter:
+		return isFile(x.Name())
+	case *ssa.UnOp:
+		if x.Op == token.MUL {
+			if fa, ok := x.X.(*ssa.FieldAddr); ok {
+				return isFile(fieldName(fa.X.Type(), fa.Field))
+			}
+		}
+	case *ssa.Field:
+		return isFile(structFieldName(x.X.Type(), x.Field))
+	}
+	return false
+}
+
+// ALIAS/struct-copy: a record with map fields is not cloned by assignment.
+
+var ruleStructCopy = &Rule{
+	Name:    "ALIAS/struct-copy-shares-map",
+	NeedSSA: true,
+	Text: "no module function makes a new heap object by copying a whole struct value out of another object (`n := *p; q = &n`) when the struct type has map-typed fields, " +
+		"unless every map field of the copy is given a map of its own in the same function: the copy and the original share the maps, so what is added to one record " +
+		"(the fields of one ---@class of a comment block) shows up in the other",
+	Run: func(c *Ctx) []Ob {
+		var obs []Ob
+		nTypes := map[string]bool{}
+		n := 0
+		for _, f := range c.ModFns() {
+			cnt := 0
+			for _, b := range f.Blocks {
+				for _, ins := range b.Instrs {
+					st, ok := ins.(*ssa.Store)
+					if !ok {
+						continue
+					}
+					dst, ok := st.Addr.(*ssa.Alloc)
+					if !ok || !dst.Heap {
+						continue
+					}
+					ld, ok := st.Val.(*ssa.UnOp)
+					if !ok || ld.Op != token.MUL {
+						continue
+					}
+					if _, fromLocal := ld.X.(*ssa.Alloc); fromLocal {
+						continue
+					}
+					nt, ok := types.Unalias(ld.Type()).(*types.Named)
+					if !ok || nt.Obj().Pkg() == nil || !hasPrefixPath(nt.Obj().Pkg().Path()) {
+						continue
+					}
+					stt, ok := nt.Underlying().(*types.Struct)
+					if !ok {
+						continue
+					}
+					var mapFields []int
+					for i := 0; i < stt.NumFields(); i++ {
+						if _, isMap := types.Unalias(stt.Field(i).Type()).Underlying().(*types.Map); isMap {
+							mapFields = append(mapFields, i)
+						}
+					}
+					if len(mapFields) == 0 {
+						continue
+					}
+					nTypes[nt.Obj().Name()] = true
+					n++
+					cnt++
+					key := fmt.Sprintf("ALIAS/struct-copy:%s:%s#%d", fnKey(f), nt.Obj().Name(), cnt)
+					// every map field of the copy re-made?
+					remade := map[int]bool{}
+					if refs := dst.Referrers(); refs != nil {
+						for _, r := range *refs {
+							fa, ok := r.(*ssa.FieldAddr)
+							if !ok {
+								continue
+							}
+							if frefs := fa.Referrers(); frefs != nil {
+								for _, rr := range *frefs {
+									if s2, ok := rr.(*ssa.Store); ok && s2.Addr == ssa.Value(fa) {
+										if _, isMake := s2.Val.(*ssa.MakeMap); isMake {
+											remade[fa.Field] = true
+										}
+									}
+								}
+							}
+						}
+					}
+					all := true
+					for _, i := range mapFields {
+						if !remade[i] {
+							all = false
+						}
+					}
+					if all {
+						obs = append(obs, Ob{Key: key, Site: c.Pos(st.Pos()), Verdict: OK, Note: "every map field of the copy gets its own map"})
+					} else {
+						obs = append(obs, Ob{Key: key, Site: c.Pos(st.Pos()), Verdict: VIOLATION,
+							Note: "a new " + nt.Obj().Name() + " is made by copying another one: both records share the same map(s); entries added to one appear in the other"})
+					}
+				}
+			}
+		}
+		c.Stats["struct_copy_sites"] = n
+		// the rule is about an absence: report what was looked at
+		cand := 0
+		for _, p := range c.Pkgs {
+			sc := p.Types.Scope()
+			for _, nm := range sc.Names() {
+				tn, ok := sc.Lookup(nm).(*types.TypeName)
+				if !ok {
+					continue
+				}
+				stt, ok := tn.Type().Underlying().(*types.Struct)
+				if !ok {
+					continue
+				}
+				for i := 0; i < stt.NumFields(); i++ {
+					if _, isMap := types.Unalias(stt.Field(i).Type()).Underlying().(*types.Map); isMap {
+						cand++
+						break
+					}
+				}
+			}
+		}
+		c.Stats["struct_types_with_map_fields"] = cand
+		obs = append(obs, Ob{Key: "ALIAS/struct-copy:types-examined", Verdict: map[bool]string{true: OK, false: VACUOUS}[cand >= 10],
+			Note: fmt.Sprintf("%d struct types of the module have map fields; %d whole-value copies of such a struct into a new heap object found", cand, n)})
+		return obs
+	},
+}
+
+func hasPrefixPath(p string) bool {
+	return p == modPath || (len(p) > len(modPath) && p[:len(modPath)+1] == modPath+"/")
+}
+
+// CFG/G11: a table consulted with the elements of a list is the table that was filled from that list.
+
+var ruleCfgG11 = &Rule{
+	Name:    "CFG/G11-companion-table",
+	NeedSSA: true,
+	Text: "in the methods of common.GlobalConfig, a map field T read with a key that is the loop element of a range over another collection field C of the same object " +
+		"(T[k] with k ranging over C) is a companion of C: some function writes T[x] and adds x to C (C[x] = … or C = append(C, x)) with the same value x. " +
+		"Reading a different table that happens to have the same type (the compiled patterns of the ignore-file list instead of those of the per-file type rules) " +
+		"finds nothing for the keys of C, and the rule those keys stand for is silently not applied",
+	Run: func(c *Ctx) []Ob {
+		var obs []Ob
+		gcField := func(v ssa.Value) (string, bool) { // v = load of g.<field>
+			ld, ok := v.(*ssa.UnOp)
+			if !ok || ld.Op != token.MUL {
+				return "", false
+			}
+			fa, ok := ld.X.(*ssa.FieldAddr)
+			if !ok {
+				return "", false
+			}
+			if p, n := namedPkgName(fa.X.Type()); p != commonPkg || n != "GlobalConfig" {
+				return "", false
+			}
+			return fieldName(fa.X.Type(), fa.Field), true
+		}
+		// co-writes: function -> field -> set of key access paths
+		type kw struct{ field, key string }
+		writes := map[*ssa.Function]map[kw]bool{}
+		add := func(f *ssa.Function, field string, key ssa.Value) {
+			if writes[f] == nil {
+				writes[f] = map[kw]bool{}
+			}
+			k := apath(key, 0)
+			if cst, ok := key.(*ssa.Const); ok && cst.Value != nil {
+				k = "const:" + cst.Value.ExactString()
+			}
+			writes[f][kw{field, k}] = true
+		}
+		for _, f := range c.ModFns() {
+			for _, b := range f.Blocks {
+				for _, ins := range b.Instrs {
+					switch x := ins.(type) {
+					case *ssa.MapUpdate:
+						if fld, ok := gcField(x.Map); ok {
+							add(f, fld, x.Key)
+						}
+					case *ssa.Store:
+						fa, ok := x.Addr.(*ssa.FieldAddr)
+						if !ok {
+							continue
+						}
+						if p, n := namedPkgName(fa.X.Type()); p != commonPkg || n != "GlobalConfig" {
+							continue
+						}
+						if call := appendCall(x.Val); call != nil && len(call.Call.Args) == 2 {
+							// append(C, x): the variadic slice holds x
+							if sl, ok := call.Call.Args[1].(*ssa.Slice); ok {
+								if al, ok := sl.X.(*ssa.Alloc); ok {
+									if refs := al.Referrers(); refs != nil {
+										for _, r := range *refs {
+											if ia, ok := r.(*ssa.IndexAddr); ok {
+												if irefs := ia.Referrers(); irefs != nil {
+													for _, rr := range *irefs {
+														if st, ok := rr.(*ssa.Store); ok && st.Addr == ssa.Value(ia) {
+															add(f, fieldName(fa.X.Type(), fa.Field), st.Val)
+														}
+													}
+												}
+											}
+										}
+									}
+								}
+							}
+						}
+					}
+				}
+			}
+		}
+		companions := func(t, cfield string) bool {
+			for _, m := range writes {
+				for k := range m {
+					if k.field != t {
+						continue
+					}
+					if m[kw{cfield, k.key}] {
+						return true
+					}
+				}
+			}
+			return false
+		}
+		n := 0
+		for _, f := range c.ModFns() {
+			if f.Signature.Recv() == nil {
+				continue
+			}
+			if p, nm := namedPkgName(f.Signature.Recv().Type()); p != commonPkg || nm != "GlobalConfig" {
+				continue
+			}
+			cnt := 0
+			for _, b := range f.Blocks {
+				for _, ins := range b.Instrs {
+					lk, ok := ins.(*ssa.Lookup)
+					if !ok {
+						continue
+					}
+					t, ok := gcField(lk.X)
+					if !ok {
+						continue
+					}
+					// the key: element of a range over another field?
+					cfield := ""
+					switch k := lk.Index.(type) {
+					case *ssa.Extract: // key of a map range
+						if nx, ok := k.Tuple.(*ssa.Next); ok && k.Index == 1 {
+							if rg, ok := nx.Iter.(*ssa.Range); ok {
+								cfield, _ = gcField(rg.X)
+							}
+						}
+					case *ssa.UnOp: // element of a slice range
+						if ia, ok := k.X.(*ssa.IndexAddr); ok && k.Op == token.MUL {
+							cfield, _ = gcField(ia.X)
+						}
+					}
+					if cfield == "" || cfield == t {
+						continue
+					}
+					n++
+					cnt++
+					key := fmt.Sprintf("CFG/G11:%s:%s[%s]#%d", f.Name(), t, cfield, cnt)
+					if companions(t, cfield) {
+						obs = append(obs, Ob{Key: key, Site: c.Pos(lk.Pos()), Verdict: OK, Note: t + " is filled together with " + cfield})
+					} else {
+						obs = append(obs, Ob{Key: key, Site: c.Pos(lk.Pos()), Verdict: VIOLATION,
+							Note: f.Name() + " looks the elements of " + cfield + " up in " + t + ", but no function ever puts an element of " + cfield + " into " + t + ": the lookup always misses (wrong table of the same type?)"})
+					}
+				}
+			}
+		}
+		obs = append(obs, floor("CFG/G11-companion-table", "lookups keyed by the elements of another configuration list", n, 3))
+		return obs
+	},
+}
